@@ -1,21 +1,23 @@
 import OH.Proofs.EvalSpecDatedYear
+import OH.Proofs.EvalSpecDatedWide
 /-
 C01 refinement, dated ranges: the decidable class under which the model's filter is the specification's
 `datedOk` on every day of 1899-12-31 … 9999-12-31.
 
 Since the pairing windows of `MonthdayRange::Date` are centred on the year the bound has to come from
 (`yearBeforeOffset`: the year of `d - day offset`) the class no longer depends on the day, on year-locality
-or on the size of the shift relative to a year: both day offsets within ±30 000 000 days (so that every year
-looked at — by the code around the year of `d - offset`, by the specification `yearSpan` years around the
-year of `d` — lies in -165 000 … 175 000, where instances exist and no shifted instance saturates at chrono's
-extreme dates), within ±300 000 days when a bound is Easter (every year looked at is then a year ≥ 0, where
-`easter()` is the Gregorian computus), and a defined meaning.
-
-Why not more (notes/DATED-BOUND.md): the specification looks for instances on `3 + (|so| + |eo|) / 365` years on
-EITHER side of the evaluated day, so with two offsets of `B` days an instance `2B` days away from the day is
-shifted by `B` more: beyond `3B ≈ 92 000 000` days its shifted day is pinned at `NaiveDate::MIN/MAX` and the
-strict order of the shifted instances the proofs rest on (`StepMono`) is lost; and `easter()` on a negative
-year is not a date between March 22nd and April 25th (it can be `Feb 30`: no occurrence).
+or on the size of the shift relative to a year.  A defined meaning, and (`datedPlain`):
+ * both bounds carry a year: ANY offsets;
+ * two fixed dates without a year (`offsWideD`, OH/Proofs/EvalSpecDatedWide.lean): both day offsets within
+   ±92 000 000 days — as far as the years the code looks at (around the year of `d - offset`) are years of chrono's
+   calendar; the shifted instances the SPECIFICATION looks at (`yearSpan` years on either side of the day) may be
+   pinned at `NaiveDate::MIN/MAX` or lie outside the calendar: handled by weak monotonicity;
+ * a start with a year before a yearless end, and Easter (`offsSmallD`, OH/Proofs/EvalSpecDated.lean,
+   EvalSpecDatedYear.lean): both day offsets within ±30 000 000 days (every year looked at lies in
+   -165 000 … 175 000, where no shifted instance saturates), within ±300 000 days when a bound is Easter (every
+   year looked at is then a year ≥ 0, where `easter()` is the Gregorian computus: on a negative year it is not a
+   date between March 22nd and April 25th — it can be `Feb 30`: no occurrence).
+What remains outside and why: notes/DATED-BOUND.md.
 -/
 namespace OH.Proofs.EvalSpec
 open OH.Model OH.Model.Cal
@@ -50,33 +52,78 @@ theorem offsSmallD_spec (s : DateSpec) (so : DateOffset) (e : DateSpec) (eo : Da
     unfold yearSpan
     omega
 
+/-- a day offset within ±92 000 000 days (about ±252 000 years): as far as the years the code looks at
+(`ys-2 … ys+10` around the year of `d - offset`, `d` a day of 1900–9999) are years of chrono's calendar -/
+def offWideD (o : DateOffset) : Bool := decide (-92000000 ≤ o.days ∧ o.days ≤ 92000000)
+
+/-- a fixed date without a year (`Jan 01`, `Feb 29`) -/
+def fixedYearless (ds : DateSpec) : Bool := isFixedDate ds && (specYear ds).isNone
+
+/-- two fixed yearless dates (OH/Proofs/EvalSpecDatedWide.lean): both day offsets within ±92 000 000 days; for a
+single day (`Feb 29 -N days-Feb 29 +M days`) the END offset only — the start offset is any `Int` -/
+def offsWideD (s : DateSpec) (so : DateOffset) (e : DateSpec) (eo : DateOffset) : Bool :=
+  fixedYearless s && fixedYearless e && offWideD eo && (s == e || offWideD so)
+
 /-- Rule-level class (no reference to the day): the range has a defined meaning (`datedDefined`: not
-"no year … year") and, unless BOTH bounds carry a year (then: any offsets), both day offsets are within
-±30 000 000 days (±300 000 days when a bound is Easter).  Nothing else: any weekday shift, bounds with or
-without a year, single days, ranges longer than a year, offsets that differ by thousands of years. -/
+"no year … year") and
+ * both bounds carry a year: any offsets;
+ * two fixed dates without a year: both day offsets within ±92 000 000 days (`offsWideD`; a single day: the end
+   offset only);
+ * otherwise (a start with a year and a yearless end; Easter): both day offsets within ±30 000 000 days, ±300 000
+   days when a bound is Easter (`offsSmallD`).
+Nothing else: any weekday shift, single days, ranges longer than a year, offsets that differ by thousands of
+years. -/
 def datedPlain (s : DateSpec) (so : DateOffset) (e : DateSpec) (eo : DateOffset) : Bool :=
-  (((specYear s).isSome && (specYear e).isSome) || offsSmallD s so e eo) && datedDefined s e
+  (((specYear s).isSome && (specYear e).isSome) || offsSmallD s so e eo || offsWideD s so e eo) && datedDefined s e
 
 /-- The class of (dated range, day) pairs the refinement covers: it no longer depends on the day (the
 parameter is kept for the statements that quantify over days). -/
 def datedSafe (s : DateSpec) (so : DateOffset) (e : DateSpec) (eo : DateOffset) (_d : Int) : Bool :=
   datedPlain s so e eo
 
+theorem dated_eq_of_wide (s : DateSpec) (so : DateOffset) (e : DateSpec) (eo : DateOffset) (d : Int)
+    (hwf : (MonthdayRange.date s so e eo).wf = true) (hw : offsWideD s so e eo = true)
+    (h1 : dateStart - 1 ≤ d) (h2 : d < dateEnd) :
+    MonthdayRange.filter (.date s so e eo) d = .ok (datedOk s so e eo d) := by
+  simp only [MonthdayRange.wf, Bool.and_eq_true] at hwf
+  obtain ⟨⟨⟨ws, wso⟩, we⟩, weo⟩ := hwf
+  have wso' : so.wday.wf = true := by simp only [DateOffset.wf, Bool.and_eq_true] at wso; exact wso.1
+  have weo' : eo.wday.wf = true := by simp only [DateOffset.wf, Bool.and_eq_true] at weo; exact weo.1
+  simp only [offsWideD, fixedYearless, offWideD, Bool.and_eq_true, Bool.or_eq_true, decide_eq_true_eq,
+    Option.isNone_iff_eq_none, beq_iff_eq] at hw
+  obtain ⟨⟨⟨⟨fs, ys⟩, ⟨fe, ye⟩⟩, hes⟩, hso⟩ := hw
+  by_cases hns : s = e ∧ isFixedDate s = true
+  · obtain ⟨rfl, _⟩ := hns
+    cases s with
+    | easter yr => simp [isFixedDate] at fs
+    | fixed yr m dd =>
+      cases yr with
+      | some n => simp [specYear] at ys
+      | none => exact dated_single_eqW m dd so eo d wso weo hes h1 h2
+  · have hss : -92000000 ≤ so.days ∧ so.days ≤ 92000000 := by
+      rcases hso with h | h
+      · exact absurd ⟨h, fs⟩ hns
+      · exact h
+    exact dated_yearless_eqW s so e eo d ⟨ws, wso', fs, ys, hss⟩ ⟨we, weo', fe, ye, hes⟩ hns h1 h2
+
 theorem dated_eq_of_plain (s : DateSpec) (so : DateOffset) (e : DateSpec) (eo : DateOffset) (d : Int)
     (hwf : (MonthdayRange.date s so e eo).wf = true) (hsafe : datedPlain s so e eo = true)
     (h1 : dateStart - 1 ≤ d) (h2 : d < dateEnd) :
     MonthdayRange.filter (.date s so e eo) d = .ok (datedOk s so e eo d) := by
+  by_cases hwide : offsWideD s so e eo = true
+  · exact dated_eq_of_wide s so e eo d hwf hwide h1 h2
   simp only [MonthdayRange.wf, DateOffset.wf, Bool.and_eq_true] at hwf
   obtain ⟨⟨⟨ws, ⟨wso, _⟩⟩, we⟩, ⟨weo, _⟩⟩ := hwf
   unfold datedPlain at hsafe
-  simp only [Bool.and_eq_true, Bool.or_eq_true] at hsafe
+  simp only [Bool.and_eq_true, Bool.or_eq_true, hwide] at hsafe
   obtain ⟨hoff, hdef⟩ := hsafe
   cases hsy : specYear s with
   | none =>
     have hoff : offsSmallD s so e eo = true := by
-      rcases hoff with h | h
+      rcases hoff with (h | h) | h
       · simp [hsy] at h
       · exact h
+      · exact absurd h (by simp)
     obtain ⟨hss, hes, L, hL1, hLs, hLe, hL⟩ := offsSmallD_spec s so e eo hoff
     have hs : BoundOK L s so := ⟨ws, wso, hss, hL1, hLs⟩
     have he : BoundOK L e eo := ⟨we, weo, hes, hL1, hLe⟩
@@ -97,9 +144,10 @@ theorem dated_eq_of_plain (s : DateSpec) (so : DateOffset) (e : DateSpec) (eo : 
     cases hey : specYear e with
     | none =>
       have hoff : offsSmallD s so e eo = true := by
-        rcases hoff with h | h
+        rcases hoff with (h | h) | h
         · simp [hey] at h
         · exact h
+        · exact absurd h (by simp)
       obtain ⟨hss, hes, L, hL1, hLs, hLe, hL⟩ := offsSmallD_spec s so e eo hoff
       exact dated_year_yearless_eq s so e eo d ⟨ws, wso, hss, hL1, hLs⟩ ⟨we, weo, hes, hL1, hLe⟩ hL sy hsy hey h1 h2
     | some ey =>
